@@ -35,6 +35,8 @@ datetime.utcnow()/now() read the same Clock (restored afterwards).  Nothing in /
 from __future__ import annotations
 
 import datetime as _dt
+import ipaddress
+import itertools
 
 from hypothesis import strategies as st
 
@@ -91,7 +93,22 @@ ASSUMPTIONS = [
 ]
 
 NAMES = ["www.example.com", "mail.example.org", "cdn7.test.invalid"]
-ADDRS = ["93.184.216.34", "10.1.2.3", "[2001:db8::5]", "exit-target.example.net"]
+# index 4 is a target as a user may have typed it into MapAddress / MAPADDRESS: Tor checks such a target with
+# tor_addr_parse() (which accepts an unbracketed, upper-case IPv6 literal) and prints it back verbatim in
+# GETINFO address-mappings/*; it is generated only for never-expiring (i.e. configured) mappings
+ADDRS = ["93.184.216.34", "10.1.2.3", "[2001:db8::5]", "exit-target.example.net", "2001:DB8::2:1"]
+RESOLVED_ADDRS = 4      # indices below this are what a resolve can produce
+
+
+def _canon(a):
+    """Addresses are compared modulo spelling: txtorcon may hand back an ipaddress object."""
+    try:
+        return str(ipaddress.ip_address(a))
+    except ValueError:
+        return a
+
+
+CANON = [_canon(a) for a in ADDRS]
 ERROR = "<error>"
 FMT = "%Y-%m-%d %H:%M:%S"
 DAY = 86400
@@ -103,23 +120,55 @@ def _stamp(t):
 
 
 def format_line(step, now_int, zone_min):
-    """The text after '650 ADDRMAP ' as Tor's control_event_address_mapped() / addressmap_get_mappings() write it."""
+    """The text after '650 ADDRMAP ' as Tor's control_event_address_mapped() / addressmap_get_mappings() write it:
+    Address NewAddress Expiry [error=..] [EXPIRES=..] [CACHED=..] [STREAMID=..]."""
     name = NAMES[step["name"] % len(NAMES)]
-    if step["op"] == "err":
-        e = now_int + step["exp"]
-        s = '%s %s "%s" error=yes EXPIRES="%s"' % (name, ERROR, _stamp(e + 60 * zone_min), _stamp(e))
-        if step.get("form", "new") == "new":
-            s += ' CACHED="NO"'
-        return s
-    addr = ADDRS[step["addr"] % len(ADDRS)]
     form = step.get("form", "new")
-    cached = ' CACHED="%s"' % ("YES" if step.get("cached") else "NO") if form == "new" else ""
+    kws = []
+    if step["op"] == "err":
+        addr = ERROR
+        if step.get("kw", True) and form != "old3":
+            kws.append("error=yes")
+        cached = "NO" if form == "new" else None
+    else:
+        addr = ADDRS[step["addr"] % len(ADDRS)]
+        cached = ("YES" if step.get("cached") else "NO") if form == "new" else None
     if step["exp"] is None:
-        return "%s %s NEVER%s" % (name, addr, cached)
-    e = now_int + step["exp"]
-    if form == "utc3":
-        return '%s %s "%s"' % (name, addr, _stamp(e))
-    return '%s %s "%s" EXPIRES="%s"%s' % (name, addr, _stamp(e + 60 * zone_min), _stamp(e), cached)
+        head = "%s %s NEVER" % (name, addr)
+    else:
+        e = now_int + step["exp"]
+        if form == "utc3":          # GETINFO address-mappings/* ; pre-EXPIRES Tor on a UTC host
+            return '%s %s "%s"' % (name, addr, _stamp(e))
+        head = '%s %s "%s"' % (name, addr, _stamp(e + 60 * zone_min))
+        if form == "old3":          # Tor without extended events: local time only (generated for <error> only)
+            return head
+        kws.append('EXPIRES="%s"' % _stamp(e))
+    if cached is not None:
+        kws.append('CACHED="%s"' % cached)
+        if step.get("stream") is not None:
+            kws.append("STREAMID=%d" % step["stream"])
+        if step.get("junk"):
+            kws.append("FOO=bar")
+    order = step.get("order", 0)
+    if order and len(kws) > 1:
+        perms = list(itertools.permutations(range(len(kws))))
+        kws = [kws[k] for k in perms[order % len(perms)]]
+    return " ".join([head] + kws)
+
+
+def _line_labels(res, step):
+    form = step.get("form", "new")
+    if step["op"] == "err":
+        res.label("error-line-" + form)
+        if not step.get("kw", True) or form == "old3":
+            res.label("error-line-without-error-keyword")
+    if form == "new":
+        if step.get("stream") is not None:
+            res.label("keyword-STREAMID")
+        if step.get("junk"):
+            res.label("keyword-unknown")
+    if step.get("order", 0) and form in ("new", "mid"):
+        res.label("keyword-order-varied")
 
 
 # --------------------------------------------------------------------------- time stand-in
@@ -483,6 +532,9 @@ class _Run(object):
             raise HarnessError("unknown behaviour %r" % (beh,))
         t = i if beh.get("name") is None else beh["name"] % len(NAMES)
         step = {"op": do, "name": t, "exp": beh["exp"], "form": beh.get("form", "new")}
+        for k in ("kw", "stream", "junk", "order"):
+            if k in beh:
+                step[k] = beh[k]
         if do == "map":
             step["addr"] = beh["addr"]
             step["cached"] = False
@@ -542,7 +594,7 @@ class _Run(object):
             if fr.seen_a:
                 self.bad(i, "added-twice", "%s: two addrmap_added for one line" % fr.why)
                 return
-            if ip != ADDRS[fr.new["addr"]]:
+            if _canon(ip) != CANON[fr.new["addr"]]:
                 self.bad(i, "added-wrong-address", "%s: addrmap_added carries %r, line says %r" % (
                     fr.why, ip, ADDRS[fr.new["addr"]]))
                 return
@@ -591,7 +643,7 @@ class _Run(object):
     def boot_event(self, fr, kind, i, ip, now):
         b = fr.boot[i]
         ok = (kind == "A" and b["last"] is None) or (kind == "X" and b["last"] == "A" and not def_live(b["new"], now))
-        if ok and kind == "A" and ip != ADDRS[b["new"]["addr"]]:
+        if ok and kind == "A" and _canon(ip) != CANON[b["new"]["addr"]]:
             ok = False
         if not ok:
             self.bad(i, "boot-wrong-notifications", "%s: listener heard %s(%s -> %s) after %r" % (
@@ -644,7 +696,7 @@ class _Run(object):
                     if i not in lenient:
                         self.bad(i, "live-name-not-found", "%s: find(%r) fails at %s although its latest mapping "
                                  "(-> %s) expires %s" % (why, name, _stamp(now), ADDRS[mm["addr"]], _exp_text(mm)))
-                elif got[1] != name or got[2] != ADDRS[mm["addr"]]:
+                elif got[1] != name or _canon(got[2]) != CANON[mm["addr"]]:
                     self.bad(i, "wrong-mapping-returned", "%s: find(%r) returns %r, latest mapping is -> %s" % (
                         why, name, got[1:], ADDRS[mm["addr"]]))
                 else:
@@ -686,8 +738,13 @@ class _Run(object):
                     continue
                 mm = self.m[i] if i is not None else None
                 dead = mm is None or (def_expired(mm, now) and mm["turn"] and settled)
-                if i is None or dead or got[2] != ADDRS[mm["addr"]]:
-                    if hearing is not None and i == hearing and mm is None:
+                if i is None or dead or _canon(got[2]) != CANON[mm["addr"]]:
+                    if j < len(ADDRS) and CANON[j] != ADDRS[j] and _canon(got[2]) == CANON[j]:
+                        # found under the spelling Tor used although that mapping is gone: the key was stored
+                        # under the announced spelling but dropped under the normalised one
+                        res.bad("address-key-spelling", "%s: find(%r) still returns %r although that mapping was "
+                                "dropped/expired" % (why, addr, got[1:]))
+                    elif hearing is not None and i == hearing and mm is None:
                         res.bad("address-found-while-hearing-expired", "%s: find(%r) still returns %r while the "
                                 "listener is being told that %r expired" % (why, addr, got[1:], NAMES[i]))
                     elif addr == ERROR:
@@ -700,7 +757,7 @@ class _Run(object):
                                     "none" if mm is None else "-> %s, expires %s" % (
                                         ADDRS[mm["addr"]], _exp_text(mm))))
                     continue
-                if got[2] != addr:
+                if _canon(got[2]) != _canon(addr):
                     res.label("old-address-key-after-replace")
                 else:
                     res.label("address-lookup-ok")
@@ -757,6 +814,9 @@ class _Run(object):
                 self.contested.add(j)
                 res.label("shared-address")
         res.label("form-" + step.get("form", "new"))
+        _line_labels(res, step)
+        if CANON[j] != ADDRS[j]:
+            res.label("address-in-non-canonical-spelling")
         if E is None:
             res.label("never")
 
@@ -793,6 +853,7 @@ class _Run(object):
             res.label("error-on-never")
         else:
             res.label("error-on-unmapped")
+        _line_labels(res, step)
         fr = _Frame("err", why, i)
         fr.old = old
         fr.h0 = self.heard[i]
@@ -1014,16 +1075,32 @@ def _expiry():
     return st.one_of(_offsets(), _offsets(), _offsets(), _offsets(), st.none())
 
 
+def _kw_extras():
+    """Presence/order of the keyword arguments: (STREAMID, unknown keyword, order index; 0 = Tor's order)."""
+    return st.tuples(st.one_of(st.none(), st.none(), st.integers(1, 99999)),
+                     st.sampled_from([False, False, False, False, True]),
+                     st.sampled_from([0, 0, 0, 0, 0, 1, 2, 3, 5, 7, 11, 23]))
+
+
+def _addr_index(a, e, typed):
+    # the user-typed spelling only occurs in configured (never-expiring) mappings
+    return len(ADDRS) - 1 if (e is None and typed) else a
+
+
 def _map_steps():
     return st.builds(
-        lambda n, a, e, f, c: {"op": "map", "name": n, "addr": a, "exp": e, "form": f, "cached": c},
-        st.integers(0, len(NAMES) - 1), st.integers(0, len(ADDRS) - 1), _expiry(),
-        st.sampled_from(["new", "new", "mid", "utc3"]), st.booleans())
+        lambda n, a, e, f, c, x, t: {"op": "map", "name": n, "addr": _addr_index(a, e, t), "exp": e, "form": f,
+                                     "cached": c, "stream": x[0], "junk": x[1], "order": x[2]},
+        st.integers(0, len(NAMES) - 1), st.integers(0, RESOLVED_ADDRS - 1), _expiry(),
+        st.sampled_from(["new", "new", "mid", "utc3"]), st.booleans(), _kw_extras(),
+        st.sampled_from([False, False, True]))
 
 
 def _err_steps():
-    return st.builds(lambda n, e, f: {"op": "err", "name": n, "exp": e, "form": f},
-                     st.integers(0, len(NAMES) - 1), st.integers(30, 3600), st.sampled_from(["new", "mid"]))
+    return st.builds(lambda n, e, f, kw, x: {"op": "err", "name": n, "exp": e, "form": f, "kw": kw,
+                                             "stream": x[0], "junk": x[1], "order": x[2]},
+                     st.integers(0, len(NAMES) - 1), st.integers(30, 3600),
+                     st.sampled_from(["new", "new", "mid", "mid", "old3"]), st.booleans(), _kw_extras())
 
 
 def _adv_steps():
@@ -1052,9 +1129,14 @@ def _steps(listen=False):
 def _behaviours():
     """What a listener does from inside its 1st, 2nd, ... call (it always looks everything up)."""
     who = st.one_of(st.none(), st.none(), st.none(), st.integers(0, len(NAMES) - 1))
-    feed = st.builds(lambda n, a, e, f: {"do": "map", "name": n, "addr": a, "exp": e, "form": f},
-                     who, st.integers(0, len(ADDRS) - 1), _expiry(), st.sampled_from(["new", "new", "mid", "utc3"]))
-    ferr = st.builds(lambda n, e: {"do": "err", "name": n, "exp": e, "form": "new"}, who, st.integers(30, 3600))
+    feed = st.builds(lambda n, a, e, f, x, t: {"do": "map", "name": n, "addr": _addr_index(a, e, t), "exp": e,
+                                               "form": f, "stream": x[0], "junk": x[1], "order": x[2]},
+                     who, st.integers(0, RESOLVED_ADDRS - 1), _expiry(), st.sampled_from(["new", "new", "mid", "utc3"]),
+                     _kw_extras(), st.sampled_from([False, False, True]))
+    ferr = st.builds(lambda n, e, f, kw, x: {"do": "err", "name": n, "exp": e, "form": f, "kw": kw,
+                                             "stream": x[0], "junk": x[1], "order": x[2]},
+                     who, st.integers(30, 3600), st.sampled_from(["new", "new", "mid", "old3"]), st.booleans(),
+                     _kw_extras())
     add = st.builds(lambda j: {"do": "add", "j": j}, st.integers(0, 2))
     return st.lists(st.one_of(st.just("ok"), st.just("ok"), feed, feed, feed, ferr, add), max_size=8)
 
@@ -1064,8 +1146,9 @@ def _listeners():
 
 
 def _boot():
-    rec = st.builds(lambda n, a, e: {"name": n, "addr": a, "exp": e},
-                    st.integers(0, len(NAMES) - 1), st.integers(0, len(ADDRS) - 1), _expiry())
+    rec = st.builds(lambda n, a, e, t: {"name": n, "addr": _addr_index(a, e, t), "exp": e},
+                    st.integers(0, len(NAMES) - 1), st.integers(0, RESOLVED_ADDRS - 1), _expiry(),
+                    st.sampled_from([False, False, True]))
     return st.one_of(st.just([]), st.lists(rec, max_size=3, unique_by=lambda r: r["name"]))
 
 
@@ -1130,7 +1213,8 @@ def grid_cases():
     instants 3 s before and 3 s after every expiry that was ever announced, and far beyond."""
     firsts = [30, 3600, DAY + 30, 3 * DAY + 7, None, -60]
     follow = [("none",), ("map", 10), ("map", 7200), ("map", 2 * DAY), ("map", 5 * DAY + 11), ("map", None),
-              ("map", -30), ("err",), ("err+map", 50), ("err+map", DAY + 50), ("map2", None, 100)]
+              ("map", -30), ("err",), ("err+map", 50), ("err+map", DAY + 50), ("map2", None, 100),
+              ("err", "new", False), ("err", "mid", False), ("err", "old3", False), ("err", "mid", True)]
     for form in ("new", "utc3"):
         for zone in (0, -300):
             for o1 in firsts:
@@ -1157,7 +1241,8 @@ def grid_cases():
                             if fo[0] == "map":
                                 steps.append(mp(fo[1]))
                             elif fo[0] == "err":
-                                steps.append({"op": "err", "name": 0, "exp": 60, "form": "new"})
+                                steps.append({"op": "err", "name": 0, "exp": 60, "form": fo[1] if len(fo) > 1 else "new",
+                                              "kw": fo[2] if len(fo) > 2 else True})
                             elif fo[0] == "err+map":
                                 steps.append({"op": "err", "name": 0, "exp": 60, "form": "new"})
                                 steps.append(mp(fo[1]))
@@ -1232,6 +1317,15 @@ MUTANTS = [
      "        if newip == '<error>':", "        if False:"),
     ("address-not-replaced", "txtorcon/addrmap.py",
      "        self.ip = newip\n", "        self.ip = self.ip or newip\n"),
+    # spellings of the line: keyword presence / order, address spelling
+    ("error-recognised-by-keyword-only", "txtorcon/addrmap.py",
+     "        if newip == '<error>':",
+     "        if newip == '<error>' and any(a.lower().startswith('error=') for a in args):"),
+    ("expires-only-as-first-keyword", "txtorcon/addrmap.py",
+     "        for arg in args:\n            if arg.lower().startswith('expires='):",
+     "        for arg in args[3:4]:\n            if arg.lower().startswith('expires='):"),
+    ("address-forgotten-under-normalised-spelling", "txtorcon/addrmap.py",     # needs fixes/C20-6 in the tree
+     "        key = self.addr_key\n", "        key = str(self.ip)\n"),
     # re-entrancy: what a listener sees and does from inside its callbacks
     ("expired-notified-before-removal", "txtorcon/addrmap.py",
      "        del self.map.addr[self.name]\n        self._forget_address()\n"
